@@ -76,12 +76,55 @@ func eval(c Case) *pbt.Fail {
 	if lim := int64(n + 1024); r.ReadCalls > lim {
 		return pbt.Failf(c.Req.Entry+"/readcalls", "%s made %d Read calls for a %d-byte input (limit len+1024)", c.Req.Entry, r.ReadCalls, n)
 	}
+	// work that asks nothing of the reader: processor time of the worker process (user + system, from getrusage: it does not
+	// grow when the machine is busy the way wall-clock time does). Ordinary decoding costs 0.01-0.15 us per byte; the limit
+	// is 0.3 s + 2 us per byte, and an excess is measured twice more in a fresh worker: only the smallest of the three counts
+	cpuLim := func() int64 { return 300e6 + 2000*int64(n) }
+	if r.CPUNs > cpuLim() {
+		min := r.CPUNs
+		for i := 0; i < 2 && min > cpuLim(); i++ {
+			fresh := &worker.Client{VLimitKB: 16 << 20}
+			r2 := fresh.Do(c.Req, 2*wd)
+			fresh.Close()
+			if !r2.Hung && !r2.Died && r2.CPUNs < min {
+				min = r2.CPUNs
+			}
+		}
+		if min > cpuLim() {
+			return pbt.Failf(c.Req.Entry+"/cpu", "%s used %.2f s of processor time on a %d-byte input (%.1f us per byte; limit 0.3 s + 2 us per byte; smallest of three measurements), %d bytes requested from the reader: work that does not consume input",
+				c.Req.Entry, float64(min)/1e9, n, float64(min)/1e3/float64(n+1), r.Requested)
+		}
+		rec.Class("cpu-excess-not-confirmed", 1)
+	}
 	return nil
 }
 
 // loopy builds inputs aimed at the loops of the parsers.
 func loopy(rt *rapid.T) (string, []byte, string) {
-	switch rapid.IntRange(0, 12).Draw(rt, "loopy") {
+	switch rapid.IntRange(0, 14).Draw(rt, "loopy") {
+	case 14: // XMP values made of '&' (every one starts an entity look-up), as long as the reader's window allows
+		return "xmp", nil, "xmp-ampersands" // (built in genCase, which also picks the caller's buffer size)
+	case 13: // iloc boxes whose items declare the largest extent count: what is done per declared extent is done 65535 times per 6-byte item
+		k := rapid.SampledFrom([]int{4, 30, 60}).Draw(rt, "nilocs")
+		cnt := rapid.SampledFrom([]uint16{0xffff, 0xffff, 0x8000, 1000}).Draw(rt, "extents")
+		var entries []byte
+		for i := 0; i < 679; i++ {
+			entries = append(entries, 0, byte(i%250+1), 0, 0, byte(cnt>>8), byte(cnt))
+		}
+		iloc := &gen.Box{Type: "iloc", Full: true, Data: append([]byte{0, 0, 0xff, 0xff}, entries...)}
+		meta := &gen.Box{Type: "meta", Full: true}
+		for i := 0; i < k; i++ {
+			meta.Kids = append(meta.Kids, iloc)
+		}
+		brand := rapid.SampledFrom([]string{"avif", "heic", "crx "}).Draw(rt, "brand")
+		out := gen.Ftyp(brand, 0, brand, "mif1").Serialise(0)
+		out = append(out, meta.Serialise(len(out))...)
+		out = append(out, (&gen.Box{Type: "mdat", Data: make([]byte, 64)}).Serialise(len(out))...)
+		kind := "heif"
+		if brand == "crx " {
+			kind = "cr3"
+		}
+		return kind, out, "iloc-many-extents"
 	case 12: // SubIFDs arrays of up to 128 directory pointers: forward, backward, beyond the end of the file
 		b, _ := gen.SubIFDsTIFF(rt)
 		return "tiff", b, "tiff-subifds-array"
@@ -300,12 +343,27 @@ func genCase(rt *rapid.T) Case {
 	var c Case
 	if gen.Chance(rt, "loopy?", 0.35) {
 		kind, data, origin := loopy(rt)
+		if origin == "xmp-ampersands" {
+			size := rapid.SampledFrom([]int{0, 4096, 65536, 1 << 18}).Draw(rt, "callerbuf")
+			vlen := 1400
+			if size > 4096 {
+				vlen = size - 200
+			}
+			item := "<rdf:li>" + strings.Repeat("&", vlen) + "</rdf:li>"
+			total := rapid.SampledFrom([]int{100000, 300000}).Draw(rt, "amptotal")
+			data = []byte("<x:xmpmeta xmlns:x=\"adobe:ns:meta/\"><rdf:RDF xmlns:rdf=\"http://www.w3.org/1999/02/22-rdf-syntax-ns#\"><rdf:Description rdf:about=\"\" xmlns:dc=\"http://purl.org/dc/elements/1.1/\"><dc:subject><rdf:Bag>" +
+				strings.Repeat(item, total/len(item)+1) + "</rdf:Bag></dc:subject></rdf:Description></rdf:RDF></x:xmpmeta>")
+			c.Req.Reader.Bufio = size
+			c.Req.Input, c.Origin, c.Loops, c.Req.Entry = data, origin, 1, "ParseXmp"
+			return c
+		}
 		c.Req.Input, c.Origin, c.Loops = data, origin, 1
 		if gen.Chance(rt, "entry.any", 0.15) {
 			c.Req.Entry = rapid.SampledFrom(gen.AllEntries).Draw(rt, "entry")
 		} else {
 			c.Req.Entry = rapid.SampledFrom(gen.EntriesFor(kind)).Draw(rt, "entryk")
 		}
+		maybeFault(rt, &c)
 		return c
 	}
 	in := gen.GenInput(rt, nil)
@@ -330,7 +388,29 @@ func genCase(rt *rapid.T) Case {
 		c.Req.Input, c.Ops = gen.Mutate(rt, in.Data, in.Sites)
 		c.Origin += "+mutated"
 	}
+	maybeFault(rt, &c)
 	return c
+}
+
+// maybeFault: one case in five reads its input through a reader that delivers a prefix and then fails on every call with an
+// error that is not io.EOF (a failing disk or connection): the stream is finite all the same, and what is asked of the
+// reader after the failure counts like everything else.
+func maybeFault(rt *rapid.T, c *Case) {
+	if !gen.Chance(rt, "fault?", 0.2) {
+		return
+	}
+	n := len(c.Req.Input)
+	at := rapid.IntRange(0, n).Draw(rt, "fault.at")
+	switch rapid.IntRange(0, 3).Draw(rt, "fault.where") {
+	case 0:
+		at = n / 2
+	case 1:
+		if n > 4096 {
+			at = 4096 // the end of the first buffer: everything the directories point to lies behind the failure
+		}
+	}
+	c.Req.Reader = worker.ReaderSpec{Mode: "fault", FaultAt: at, FaultErr: rapid.SampledFrom([]string{"custom", "custom", "unexpected", "zero-then-eof"}).Draw(rt, "fault.err")}
+	c.Origin += "+fault"
 }
 
 var chk = pbt.Check[Case]{Name: "decode-terminates", Gen: genCase, Eval: eval}
@@ -342,7 +422,8 @@ func TestProp(t *testing.T) {
 	rec.Rule("inputs: C01's corpus/encoder output with hostile edits and truncations, plus loop-targeting classes (EOI followed by markers, marker bytes at SOI depth 0, " +
 		"JPEG markers of every kind with length fields 0..4 and 0xFFFC..0xFFFF, iinf/iloc boxes with zero/tiny sizes, TIFF scans over partial signatures, XMP with long white-space runs and unterminated tokens, XMP attribute/element values up to and beyond the look-ahead window (whole or cut mid-value), " +
 		"60-84 pending out-of-line tags in every container with the stream ending right after the directory tables, IFD cycles, chains of 128-entry directories); " +
-		"oracle: bytes requested <= 4*len+64KiB, Read calls <= len+1024, return within 10s+50us/byte (a single expiry is re-run alone with twice the budget; only a second expiry is a hang). " +
+		"iloc boxes whose items declare 65535 extents, XMP list items made of '&' through a caller's bufio.Reader of 4 KiB .. 256 KiB; one case in five through a reader that fails for good with a non-EOF error after a prefix; " +
+		"oracle: bytes requested <= 4*len+64KiB, Read calls <= len+1024, processor time of the worker process <= 0.3 s + 2 us/byte (smallest of three measurements), return within 10s+50us/byte (a single expiry is re-run alone with twice the budget; only a second expiry is a hang). " +
 		"non-trivial = input carries a loop-bearing construct and is >= 32 bytes; distinct by (entry, input)")
 	rec.Assume("wall-clock time is an oracle only for non-termination, with a watchdog >= 10^4 x the nominal decode time and a confirming re-run")
 	pbt.RegressDir(t, rec)
